@@ -27,22 +27,6 @@ End json_ind.
 Fixpoint obj_get (k : string) (kvs : list (string * json)) : option json :=
   match kvs with [] => None | (k', v) :: r => if String.eqb k k' then Some v else obj_get k r end.
 
-(* strip: remove_all_digests *)
-Definition is_placeholder (j : json) : bool :=
-  match j with
-  | JObj kvs => match obj_get "..." kvs with Some (JStr _) => true | _ => false end
-  | _ => false end.
-
-Fixpoint strip (j : json) : json :=
-  match j with
-  | JArr xs => JArr ((fix go (l : list json) : list json :=
-       match l with [] => [] | x :: r => if is_placeholder x then go r else strip x :: go r end) xs)
-  | JObj kvs => JObj ((fix go (l : list (string * json)) : list (string * json) :=
-       match l with [] => [] | (k, v) :: r => if String.eqb k "_sd" then go r else (k, strip v) :: go r end) kvs)
-  | _ => j
-  end.
-
-
 (* boolean equality (used by the case glue to compare implementation and model results) *)
 Fixpoint json_eqb (a b : json) : bool :=
   match a, b with
